@@ -490,7 +490,7 @@ def check(ctx, pid, n_random, dfs_bound, dfs_cap, corpus=(), model=None):
     oracle = ORACLES[pid]
     lts_model = model if model is not None else ctx.model
     direct = {'C11': (('two_sessions', two_sessions_case), ('backlog', backlog_case)),
-              'C03': (('two_sessions_rpc', two_sessions_rpc_case),), 'C04': (('two_sessions_rpc', two_sessions_rpc_case),),
+              'C03': (('two_sessions_rpc', two_sessions_rpc_case), ('backlog', backlog_case)), 'C04': (('two_sessions_rpc', two_sessions_rpc_case),),
               'C14': (('two_sessions_rpc', two_sessions_rpc_case),)}.get(pid, ())
     for name, fn in direct:
         f = fn()
@@ -531,7 +531,7 @@ def check(ctx, pid, n_random, dfs_bound, dfs_cap, corpus=(), model=None):
 def search(ctx, pid, seeds, n=1500):
     oracle = ORACLES[pid]
     direct = {'C11': (('two_sessions', two_sessions_case), ('backlog', backlog_case)),
-              'C03': (('two_sessions_rpc', two_sessions_rpc_case),), 'C04': (('two_sessions_rpc', two_sessions_rpc_case),),
+              'C03': (('two_sessions_rpc', two_sessions_rpc_case), ('backlog', backlog_case)), 'C04': (('two_sessions_rpc', two_sessions_rpc_case),),
               'C14': (('two_sessions_rpc', two_sessions_rpc_case),)}.get(pid, ())
     for name, fn in direct:
         f = fn()
